@@ -32,4 +32,6 @@ def check(chk, fx):
     c02.once(chk, fx)
     c02.lock(chk, fx)
     lexrules.lenw(chk, fx)
+    from .. import width
+    width.check(chk, fx, classes=("LEN", "DEPTH"), minimum=8)
     idxrule.report(chk, fx, lambda q: q.startswith("ctpg::"), "whole header", 40)
